@@ -287,3 +287,108 @@ Print Assumptions C04_source_end_to_end_SigncryptOpen_anonymous_nil_error.
 Print Assumptions C04_source_end_to_end_NewSigncryptOpenStream.
 Print Assumptions C04_source_end_to_end_NewSigncryptOpenStream_anonymous.
 
+(* ============================== BLOCK 3: append to props/C04.v ============================== *)
+From SP Require Spec AcceptDefs AcceptScProofs AcceptScSymProofs ScAuthProofs ScAuthLocated ScAnonLocated GoAstOpen GoAstRecv GoAstProofs4b GoAstProofs5a GoAstProofs7c GoEndToEndAuth GoAstProofs8c.
+Section C04_source_end_to_end_read.
+Import Spec AcceptDefs AcceptScProofs AcceptScSymProofs ScAuthProofs ScAuthLocated ScAnonLocated GoLang GoLang2 GoAstOpen GoAstRecv GoAstProofs4b GoAstProofs7c GoEndToEndAuth GoAstProofs8c.
+Local Open Scope string_scope.
+
+Theorem C04_source_end_to_end_read_NewSigncryptOpenStream (c : crypto) (Hsha : forall x, List.length (sha512 c x) = 64%nat)
+        (kr : keyring) (signers : sigring) (rv : resolver) (r KR RV : gval) (input pk : bytes)
+        (rdr : gval) (M : list sc_msg) (others : list sign_event) :
+  Forall sm_ok M -> sm_headers_distinct M -> Forall other_ok others ->
+  (N.of_nat (List.length input) < 18446744073709551616)%N ->
+  rdr_bytes r = Some input ->
+  fst (run_func2 (ext_nsos c kr signers rv) f_saltpack_NewSigncryptOpenStream [r; KR; RV]) = ORet [VBytes pk; rdr; VNil] ->
+  exists obj,
+    rdr = g_cr_new obj /\
+    forall F bufs, (10 <= F)%nat -> (S (List.length input) < F)%nat -> Forall (fun b : bytes => b <> []) bufs ->
+      reads_auth_shape
+        (fun full => exists m hb rest,
+             In m M /\ read_header_bytes input = Ok (hb, rest) /\ hb = sm_header m /\ full = map fst (sm_packets m))
+        (ScBreakL c kr signers rv pk M others input)
+        (go_reads (gnc_sc c) F bufs rdr 0).
+Proof. exact (go_NewSigncryptOpenStream_read_authentic c Hsha kr signers rv r KR RV input pk rdr M others). Qed.
+
+Theorem C04_source_end_to_end_read_NewSigncryptOpenStream_anonymous (c : crypto) (Hsha : forall x, List.length (sha512 c x) = 64%nat)
+        (Hsb : forall k n m, sb_open c k n (sb_seal c k n m) = Some m)
+        (kr : keyring) (signers : sigring) (rv : resolver) (r KR RV : gval)
+        (input : bytes) (rdr : gval) (M : list sc_anon_msg) :
+  Forall sam_ok M -> sam_headers_distinct M ->
+  (N.of_nat (List.length input) < 18446744073709551616)%N ->
+  rdr_bytes r = Some input ->
+  fst (run_func2 (ext_nsos c kr signers rv) f_saltpack_NewSigncryptOpenStream [r; KR; RV]) = ORet [VNil; rdr; VNil] ->
+  exists obj,
+    rdr = g_cr_new obj /\
+    forall F bufs, (10 <= F)%nat -> (S (List.length input) < F)%nat -> Forall (fun b : bytes => b <> []) bufs ->
+      reads_auth_shape
+        (fun full => exists m hb rest,
+             In m M /\ read_header_bytes input = Ok (hb, rest) /\ hb = sam_header m /\
+             sc_receiver_state c kr signers rv input = Some (sha512 c hb, sam_pkey m, rest) /\
+             full = map fst (sam_packets m))
+        (ScAnonBreakL c kr signers rv M input)
+        (go_reads (gnc_sc c) F bufs rdr 0).
+Proof. exact (go_NewSigncryptOpenStream_read_anonymous_authentic c Hsha Hsb kr signers rv r KR RV input rdr M). Qed.
+
+Theorem C04_source_end_to_end_read_of_model (c : crypto) (kr : keyring) (signers : sigring) (rv : resolver) (KR RV rd : gval)
+        (wire : bytes) (sg : option bytes) (out : stream_out) :
+  signcrypt_open_stream c kr signers rv wire = Ok (sg, out) ->
+  rdr_bytes rd = Some wire ->
+  (N.of_nat (List.length wire) < 18446744073709551616)%N ->
+  exists obj : gval,
+    fst (run_func2 (ext_nsos c kr signers rv) f_saltpack_NewSigncryptOpenStream [rd; KR; RV])
+    = ORet [g_signer sg; g_cr_new obj; VNil] /\
+    forall F bufs, (10 <= F)%nat -> (S (List.length wire) < F)%nat -> Forall (fun p : bytes => p <> []) bufs ->
+      let res := go_reads (gnc_sc c) F bufs (g_cr_new obj) 0 in
+      reads_spec res (List.concat (so_chunks out)) (so_end out) /\
+      ((List.length (List.concat (so_chunks out)) + List.length wire + 2 <= List.length bufs)%nat -> reads_done res).
+Proof. exact (go_NewSigncryptOpenStream_reads_of_model c kr signers rv KR RV rd wire sg out). Qed.
+
+Theorem C04_source_end_to_end_read_accepts_spec_box (c : crypto) (Hc : crypto_ok c) (p : S_sc) (sk : bytes) (i : nat)
+        (signers : sigring) (rv : resolver) (KR RV rd : gval) :
+  sc_params_ok c p ->
+  nth_error (sc_rcpts p) i = Some (S_BoxR (dh_pub c sk)) ->
+  (forall s, sc_signer p = Some s -> In (ed_pub c s) signers) ->
+  rdr_bytes rd = Some (S_encode_signcryption c p) ->
+  (N.of_nat (List.length (S_encode_signcryption c p)) < 18446744073709551616)%N ->
+  let kr := mkRing [(sk, dh_pub c sk)] None in
+  let sg := option_map (ed_pub c) (sc_signer p) in
+  (exists obj : gval,
+      fst (run_func2 (ext_nsos c kr signers rv) f_saltpack_NewSigncryptOpenStream [rd; KR; RV])
+      = ORet [g_signer sg; g_cr_new obj; VNil] /\
+      forall F bufs, (10 <= F)%nat -> (S (List.length (S_encode_signcryption c p)) < F)%nat -> Forall (fun b : bytes => b <> []) bufs ->
+        let res := go_reads (gnc_sc c) F bufs (g_cr_new obj) 0 in
+        reads_spec res (List.concat (sc_chunks p)) EOF /\
+        ((List.length (List.concat (sc_chunks p)) + List.length (S_encode_signcryption c p) + 2 <= List.length bufs)%nat ->
+         res = Some (Z.of_nat (List.length (List.concat (sc_chunks p))), VErr "io.EOF" [])))
+  \/ S_identifier_collision c p sk i.
+Proof. exact (go_NewSigncryptOpenStream_read_accepts_spec_box c Hc p sk i signers rv KR RV rd). Qed.
+
+Theorem C04_source_end_to_end_read_accepts_spec_sym (c : crypto) (Hc : crypto_ok c) (p : S_sc) (i : nat) (key ident : bytes)
+        (rsl : list (bytes * bytes)) (signers : sigring) (KR RV rd : gval) :
+  sc_params_ok c p ->
+  nth_error (sc_rcpts p) i = Some (S_SymR key ident) ->
+  resolve rsl ident = Some key ->
+  S_resolver_genuine c rsl p ->
+  (forall s, sc_signer p = Some s -> In (ed_pub c s) signers) ->
+  rdr_bytes rd = Some (S_encode_signcryption c p) ->
+  (N.of_nat (List.length (S_encode_signcryption c p)) < 18446744073709551616)%N ->
+  let kr := mkRing [] None in
+  let sg := option_map (ed_pub c) (sc_signer p) in
+  exists obj : gval,
+    fst (run_func2 (ext_nsos c kr signers (Some rsl)) f_saltpack_NewSigncryptOpenStream [rd; KR; RV])
+    = ORet [g_signer sg; g_cr_new obj; VNil] /\
+    forall F bufs, (10 <= F)%nat -> (S (List.length (S_encode_signcryption c p)) < F)%nat -> Forall (fun b : bytes => b <> []) bufs ->
+      let res := go_reads (gnc_sc c) F bufs (g_cr_new obj) 0 in
+      reads_spec res (List.concat (sc_chunks p)) EOF /\
+      ((List.length (List.concat (sc_chunks p)) + List.length (S_encode_signcryption c p) + 2 <= List.length bufs)%nat ->
+       res = Some (Z.of_nat (List.length (List.concat (sc_chunks p))), VErr "io.EOF" [])).
+Proof. exact (go_NewSigncryptOpenStream_read_accepts_spec_sym c Hc p i key ident rsl signers KR RV rd). Qed.
+End C04_source_end_to_end_read.
+Print Assumptions C04_source_end_to_end_read_NewSigncryptOpenStream.
+Print Assumptions C04_source_end_to_end_read_NewSigncryptOpenStream_anonymous.
+Print Assumptions C04_source_end_to_end_read_of_model.
+Print Assumptions C04_source_end_to_end_read_accepts_spec_box.
+Print Assumptions C04_source_end_to_end_read_accepts_spec_sym.
+
+
